@@ -180,6 +180,8 @@ class Ctx:
             return em.SometimeAfter(self.expr(e[1]), self.expr(e[2]))
         if k == "dot":
             return em.Dot(e[1], self.expr(e[2]))
+        if k == "timing":
+            return em.TimingExp(timing(e[1]))
         raise ValueError(f"unknown expr recipe {e!r}")
 
 
